@@ -4,6 +4,7 @@ A check module (harness/checks/cXX.py) provides
 
   PID          'C04'
   MODULE       Lean module holding the property theorems, e.g. 'PymtlVerif.Props.C04'
+  DRIVERS      list of handler names whose native drivers (lean exe pv_<name>) the check uses, e.g. ['bits']
   THEOREMS     list of fully qualified theorem names = the proof obligations
   TRUSTED      list of strings (trusted base specific to the property)
   ASSUMPTIONS  list of strings
@@ -70,24 +71,29 @@ class Check:
     self.notes = []
     self.known_hits = {}
     self.extra_cov = {}
-    self._driver = None
+    self._drivers = {}
     os.makedirs(WORK_DIR, exist_ok=True)
     self.workdir = os.path.join(WORK_DIR, f'{self.pid}-{tier}-{os.getpid()}')
     os.makedirs(self.workdir, exist_ok=True)
 
   # ---------------------------------------------------------------- Lean side
+  def drv(self, handler):
+    """the native Lean driver of a handler family (mod.DRIVERS lists the ones this check uses)"""
+    if handler not in self._drivers:
+      self._drivers[handler] = leanio.Driver(handler)
+    return self._drivers[handler]
+
   @property
   def driver(self):
-    if self._driver is None:
-      self._driver = leanio.Driver()
-    return self._driver
+    return self.drv(self.mod.DRIVERS[0])
 
   def proof_step(self):
     mod = self.mod
     theorems = list(mod.THEOREMS)
     self.obligations = len(theorems)
     modules = mod.MODULE if isinstance(mod.MODULE, (list, tuple)) else [mod.MODULE]
-    ok, out, dt = leanio.lake_build(list(modules) + ['pvdriver'])
+    exes = ['pv_' + h for h in mod.DRIVERS]
+    ok, out, dt = leanio.lake_build(list(modules) + exes)
     self.build_s = dt
     if not ok:
       # which theorem broke? try to name it from the error location
@@ -95,8 +101,9 @@ class Check:
       errs = [l for l in out.split('\n') if 'error' in l][:8]
       self.broken_theorems.append({'theorem': f'build of {modules}', 'msg': ' | '.join(errs)[:1500]})
       # the driver may still exist from an earlier build; correspondence can go on if so
-      if not os.path.exists(leanio.DRIVER):
-        raise InfraError('lake build failed and no driver binary exists:\n' + out[-3000:])
+      if not all(os.path.exists(leanio.driver_path(h)) for h in mod.DRIVERS):
+        # the model/driver itself no longer builds: cannot run the correspondence at all
+        raise InfraError('lake build failed and a driver binary is missing:\n' + out[-3000:])
       return
     # source scan over the import closure of the property modules
     files = {}
@@ -245,7 +252,7 @@ class Check:
       'distribution': self.dist,
       'correspondence_disagreements': len(self.breaks),
       'known_findings_reproduced': sorted(self.known_hits),
-      'driver_lines': self.driver.lines if self._driver else 0,
+      'driver_lines': sum(d.lines for d in self._drivers.values()),
       'exhaustive': bool(self.extra_cov.get('exhaustive', False)),
     }
     cov.update({k: v for k, v in self.extra_cov.items() if k != 'exhaustive'})
